@@ -103,3 +103,154 @@ theorem pair_shapes {pw : PairCounts} {a b : Cand} (hab : a ≠ b) (hne : pw ≠
       | exact h23 (h2.trans h3.symm)
 
 end VL.Score
+
+namespace VL.Score
+open VL VL.Appr
+
+/-! ### run-off members and the member matrix (fix 03ef346) -/
+
+theorem extend_one_mem (ms : List Cand) (c x : Cand) :
+    x ∈ (if ms.contains c then ms else ms ++ [c]) ↔ x ∈ ms ∨ x = c := by
+  split
+  · rename_i h
+    have hc : c ∈ ms := by simpa using h
+    constructor
+    · exact Or.inl
+    · rintro (h' | rfl)
+      · exact h'
+      · exact hc
+  · simp
+
+theorem extend_one_nodup {ms : List Cand} (h : ms.Nodup) (c : Cand) :
+    (if ms.contains c then ms else ms ++ [c]).Nodup := by
+  split
+  · exact h
+  · rename_i hc
+    have hc' : c ∉ ms := by simpa using hc
+    rw [List.nodup_append]
+    refine ⟨h, by simp, ?_⟩
+    intro a ha b hb
+    simp at hb; subst hb
+    intro hab; subst hab; exact hc' ha
+
+theorem extend_list (l : List Cand) : ∀ (ms : List Cand),
+    (∀ x, x ∈ l.foldl (fun ms c => if ms.contains c then ms else ms ++ [c]) ms ↔ x ∈ ms ∨ x ∈ l) ∧
+    (ms.Nodup → (l.foldl (fun ms c => if ms.contains c then ms else ms ++ [c]) ms).Nodup) := by
+  induction l with
+  | nil => intro ms; simp
+  | cons c cs ih =>
+    intro ms
+    obtain ⟨i1, i2⟩ := ih (if ms.contains c then ms else ms ++ [c])
+    refine ⟨?_, fun h => i2 (extend_one_nodup h c)⟩
+    intro x
+    simp only [List.foldl_cons]
+    rw [i1 x, extend_one_mem]
+    simp only [List.mem_cons]
+    tauto
+
+/-- candidates a slot names -/
+def slotNames : Slot → List Cand
+  | Slot.cand c => [c]
+  | Slot.tie T => T
+
+theorem extendMembers_spec (ms : List Cand) (s : Slot) :
+    (∀ x, x ∈ extendMembers ms s ↔ x ∈ ms ∨ x ∈ slotNames s) ∧ (ms.Nodup → (extendMembers ms s).Nodup) := by
+  cases s with
+  | cand c =>
+    refine ⟨fun x => ?_, fun h => extend_one_nodup h c⟩
+    simp only [extendMembers, slotNames, List.mem_singleton]
+    exact extend_one_mem ms c x
+  | tie T =>
+    obtain ⟨i1, i2⟩ := extend_list (sortDedup T) ms
+    refine ⟨fun x => ?_, i2⟩
+    simp only [extendMembers, slotNames]
+    rw [i1 x, mem_sortDedup]
+
+/-- **the run-off members** are exactly the candidates named by the run-off selection — individually or inside a tie
+    object (all candidates tied at the boundary enter) — each once -/
+theorem starMembers_spec (slots : List Slot) :
+    (∀ x, x ∈ starMembers slots ↔ ∃ s ∈ slots, x ∈ slotNames s) ∧ (starMembers slots).Nodup := by
+  unfold starMembers
+  have key : ∀ (l : List Slot) (ms : List Cand),
+      (∀ x, x ∈ l.foldl extendMembers ms ↔ x ∈ ms ∨ ∃ s ∈ l, x ∈ slotNames s) ∧
+      (ms.Nodup → (l.foldl extendMembers ms).Nodup) := by
+    intro l
+    induction l with
+    | nil => intro ms; simp
+    | cons s rest ih =>
+      intro ms
+      obtain ⟨e1, e2⟩ := extendMembers_spec ms s
+      obtain ⟨i1, i2⟩ := ih (extendMembers ms s)
+      refine ⟨?_, fun h => i2 (e2 h)⟩
+      intro x
+      simp only [List.foldl_cons]
+      rw [i1 x, e1 x]
+      simp only [List.mem_cons, exists_eq_or_imp]
+      tauto
+  obtain ⟨k1, k2⟩ := key slots []
+  exact ⟨fun x => by rw [k1 x]; simp, k2 (by simp)⟩
+
+theorem mem_memberPairs {all : PairCounts} {ms : List Cand} {p : (Cand × Cand) × Int} :
+    p ∈ memberPairs all ms ↔ p.1.1 ∈ ms ∧ p.1.2 ∈ ms ∧ p.1.1 ≠ p.1.2 ∧ p.2 = getPair all p.1.1 p.1.2 := by
+  unfold memberPairs
+  simp only [List.mem_flatMap, List.mem_map, List.mem_filter, bne_iff_ne, ne_eq]
+  constructor
+  · rintro ⟨c1, h1, c2, ⟨h2, hne⟩, rfl⟩
+    exact ⟨h1, h2, hne, rfl⟩
+  · rintro ⟨h1, h2, hne, hv⟩
+    refine ⟨p.1.1, h1, p.1.2, ⟨h2, hne⟩, ?_⟩
+    rw [← hv]
+
+theorem memberPairs_keys_nodup (all : PairCounts) {ms : List Cand} (h : ms.Nodup) :
+    ((memberPairs all ms).map (·.1)).Nodup := by
+  unfold memberPairs
+  rw [List.map_flatMap, List.nodup_flatMap]
+  refine ⟨?_, ?_⟩
+  · intro c1 _
+    rw [List.map_map]
+    have : ((fun (x : (Cand × Cand) × Int) => x.1) ∘ fun c2 => ((c1, c2), getPair all c1 c2)) = fun c2 => (c1, c2) := rfl
+    rw [this]
+    exact (h.filter _).map (fun a b hab => by injection hab)
+  · apply h.imp
+    intro a b hab
+    intro x hx1 hx2
+    simp only [List.map_map, List.mem_map, Function.comp] at hx1 hx2
+    obtain ⟨_, _, rfl⟩ := hx1
+    obtain ⟨_, _, he⟩ := hx2
+    injection he with he1 _
+    exact hab he1.symm
+
+theorem getPair_of_mem {d : PairCounts} (hnd : (d.map (·.1)).Nodup) {a b : Cand} {v : Int} (h : ((a, b), v) ∈ d) :
+    getPair d a b = v := by
+  induction d with
+  | nil => cases h
+  | cons q rest ih =>
+    have hq := List.nodup_cons.mp hnd
+    unfold getPair
+    rcases List.mem_cons.mp h with rfl | h'
+    · simp [List.find?_cons]
+    · have hne : ¬ q.1 = (a, b) := by
+        intro he
+        apply hq.1
+        exact List.mem_map.mpr ⟨((a, b), v), h', he.symm⟩
+      simp only [List.find?_cons, hne, decide_false]
+      exact ih hq.2 h'
+
+/-- **the member matrix**: the run-off evaluator sees, for every ordered pair of distinct run-off members, exactly the
+    number of voters preferring the first to the second (0 if nobody does) -/
+theorem memberPairs_getPair (all : PairCounts) {ms : List Cand} (h : ms.Nodup) {a b : Cand}
+    (ha : a ∈ ms) (hb : b ∈ ms) (hab : a ≠ b) : getPair (memberPairs all ms) a b = getPair all a b :=
+  getPair_of_mem (memberPairs_keys_nodup all h) (mem_memberPairs.mpr ⟨ha, hb, hab, rfl⟩)
+
+theorem memberPairs_two (all : PairCounts) {a b : Cand} (hab : a ≠ b) :
+    memberPairs all [a, b] = [((a, b), getPair all a b), ((b, a), getPair all b a)] := by
+  have hba : b ≠ a := fun h => hab h.symm
+  simp [memberPairs, List.filter_cons, hab, hba]
+
+theorem getPair_nonneg {d : PairCounts} (h : ∀ p ∈ d, 0 ≤ p.2) (a b : Cand) : 0 ≤ getPair d a b := by
+  unfold getPair
+  cases hf : d.find? (fun p => decide (p.1 = (a, b))) with
+  | none => exact le_refl _
+  | some p => exact h p (List.mem_of_find?_eq_some hf)
+
+end VL.Score
